@@ -566,6 +566,17 @@ func (p *Prog) verifyFunc(name string) *Exec {
 		args = append(args, g)
 		ex.entryParams[prm.Name()] = g
 	}
+	if c != nil {
+		for _, gp := range c.GhostParams {
+			gs := sortByName(p.w, p, gp[1])
+			if gs == nil {
+				ex.unsupp("ghost parameter %s of unknown type %s", gp[0], gp[1])
+				continue
+			}
+			gc := p.NamedConst(gp[0]+"@ghost_"+ex.fname0(), gs)
+			ex.entryParams[gp[0]] = &GVal{T: gc, Typ: typeByName(p, gp[1])}
+		}
+	}
 	ex.st = ex.entry.clone()
 	if c != nil {
 		env := fr.entryEnv()
@@ -605,6 +616,12 @@ func (p *Prog) verifyFunc(name string) *Exec {
 		if c != nil {
 			for i, cl := range c.Ensures {
 				if cl.Tier == "thorough" && p.tier != "thorough" {
+					continue
+				}
+				if cl.Kind == "assumes" {
+					// an explicit, listed assumption about this function's result (not proved)
+					p.assumptions["assumed in "+name+": "+cl.Text] = true
+					ex.addFact(Implies(fr.cur, fr.evalBool(cl.Expr, env)))
 					continue
 				}
 				fr.oblige("post", retLabel+"/"+clauseLabel2(cl, "ensures", i), cl.Props, fr.evalBool(cl.Expr, env), r.pos)
